@@ -10,13 +10,14 @@ from . import common as C
 from . import debiasers, realruns as R
 
 GEN_FILES = ["GenPrecip", "GenConfig", "GenScalars", "GenIsimip", "GenUtils"]
-TRUSTED = ["C10: the value-adjustment of ISIMIP step 6 is a parameter of the model (its range is proved for the non-parametric branch via C16, assumed for fitted distributions with fixed floc/fscale); steps 1/8 (rsds) and the precipitation outputs of QM/SDM/CDFt/ISIMIP are searched on the implementation",
+TRUSTED = ["C10: the value-adjustment of ISIMIP step 6 is a parameter of the model (its range is proved for the non-parametric branch via C16, assumed for fitted distributions with fixed floc/fscale); steps 1/8 (rsds): hand model Model/IsimipStep1.v tied by K18 (scipy's wrap-around filters modelled by their window convention); the precipitation outputs of QM/SDM/CDFt/ISIMIP end to end are searched on the implementation",
            "C10: hypothesis of the property: each window keeps enough in-threshold values (the 'no pseudo-future observation between thresholds' fallback leaves values unadjusted by design)"]
 
 def correspondence(res, tier, seed):
     debiasers.k5(res, tier, seed, tag="k5c10", n_quick=12, n_thorough=120)
     debiasers.k15_relative(res, tier, seed, tag="k15rc10")
     debiasers.k17(res, tier, seed, tag="k17c10")
+    debiasers.k18(res, tier, seed, tag="k18c10")
     logging.getLogger("ibicus").setLevel(logging.CRITICAL)
     from ibicus.debias import ISIMIP
     r = C.rng_for(seed, "c10-corr")
@@ -101,21 +102,29 @@ def search(res, tier, seed, deep=False):
         warnings.simplefilter("ignore")
         for rnd in range(rounds):
             for var, (lb, lt, ub, ut) in BOUNDED.items():
-                for mode in (["none", "days"] if tier != "quick" else [["none", "days"][(rnd + len(var)) % 2]]):
+                for mode, force_ela in [(m_, e_) for m_ in (["none", "days"] if tier != "quick" else [["none", "days"][(rnd + len(var)) % 2]])
+                                        for e_ in ([False, True, True, True, True] if var == "pr" else [False])]:   # (the optional adjustment is data-sensitive: several samples)
                     kw = dict(running_window_mode=(mode == "days"))
                     if mode == "days": kw.update(running_window_length=31, running_window_step_length=15)
+                    # non-default but valid options: the optional event-likelihood adjustment of step 6, non-parametric step 6
+                    ela = force_ela or (var not in ("rsds", "pr") and r.random() < 0.25)
+                    if ela: kw["event_likelihood_adjustment"] = True
+                    elif var != "pr" and r.random() < 0.15: kw["nonparametric_qm"] = True
                     d = D.ISIMIP.from_variable(var, **kw)
                     rs = np.random.RandomState(r.randint(0, 10 ** 6))
                     n = 730; dry = r.choice([0.05, 0.3, 0.6]); 
                     obs, hist, fut = bounded_series(rs, var, n, dry, 0), bounded_series(rs, var, n, min(0.9, dry * 1.5), 0.5), bounded_series(rs, var, n, dry * 0.7, 1.0)
                     tO, tF = R.times(n, "1981-01-01"), R.times(n, "2041-01-01")
-                    inp = dict(variable=var, window_mode=mode, dry=dry, seed=seed, round=rnd)
+                    if var == "pr" and ela:       # wet days well above the threshold (gamma shape > 1), the future drier than the past
+                        mkpr = lambda dryf, sc: np.where(rs.rand(n) < dryf, 0.0, rs.gamma(1.5, sc * 4.6e-5, n))
+                        obs, hist, fut = mkpr(dry, 1.0), mkpr(dry * 0.9, r.choice([1.0, 2.0])), mkpr(dry, 0.5)      # wet-day amounts halve
+                    inp = dict(variable=var, window_mode=mode, dry=dry, seed=seed, round=rnd, options={k: v for k, v in kw.items() if k in ("event_likelihood_adjustment", "nonparametric_qm")})
                     np.random.seed(3)
                     try:
                         out = d.apply_location(obs, hist, fut, time_obs=tO, time_cm_hist=tO, time_cm_future=tF)
                     except Exception as e:
                         report("exception:ISIMIP:" + var, inp, repr(e)[:300], "ISIMIP raised on in-range input"); continue
-                    res.case(("isimip", var, mode))
+                    res.case(("isimip", var, mode, ela, kw.get("nonparametric_qm", False)))
                     if np.any(~np.isfinite(out)):
                         report("nonfinite:ISIMIP:" + var, inp, int(np.sum(~np.isfinite(out))), "ISIMIP output not finite")
                         continue
@@ -133,9 +142,12 @@ def search(res, tier, seed, deep=False):
             cfgs = [("LinearScaling", {}), ("DeltaChange", {}), ("QuantileMapping", {}), ("QuantileMapping", dict(censored=True)), ("ScaledDistributionMapping", {}),
                     ("CDFt", {}), ("QuantileDeltaMapping", {}),
                     ("CDFt", dict(long=True)),                                 # several year-windows of cm_future in turn
-                    ("QuantileDeltaMapping", dict(years_window=False))]        # the year window switched off
+                    ("QuantileDeltaMapping", dict(years_window=False)),        # the year window switched off
+                    ("CDFt", dict(over=dict(delta_shift="multiplicative"))), ("CDFt", dict(over=dict(delta_shift="no_shift")))]   # SSR stays on
+            # (non-parametric QuantileMapping is not in the property's list: its constant extrapolation below the calibration
+            #  range can go negative by construction)
             for name, opt in cfgs:
-                for mode in (["none", "days"] if tier != "quick" else [["none", "days"][(rnd + len(name)) % 2]]):
+                for mode in (["none", "days"] if (tier != "quick" or name == "ScaledDistributionMapping") else [["none", "days"][(rnd + len(name)) % 2]]):
                     rs = np.random.RandomState(r.randint(0, 10 ** 6))
                     n = 730; dry = r.choice([0.05, 0.3, 0.6, 0.9]) if name not in ("ScaledDistributionMapping",) else r.choice([0.05, 0.3, 0.6])
                     if "years_window" in opt: dry = r.choice([0.3, 0.6])
@@ -147,9 +159,18 @@ def search(res, tier, seed, deep=False):
                     if opt.get("long"):
                         nF = 365 * 24; dry = r.choice([0.3, 0.55])
                     # the model is drier than observed, or wetter (fewer dry days than obs: SSR / censoring then has to create dry days)
-                    wet_bias = r.random() < 0.5 or bool(opt.get("long")) or ("years_window" in opt)
+                    wet_bias = r.random() < 0.5 or bool(opt.get("long")) or ("years_window" in opt) or ("over" in opt)
                     dry_h, dry_f = (dry * 0.6, dry * 0.5) if wet_bias else (min(0.95, dry * 1.4), dry * 0.8)
                     obs, hist, fut = bounded_series(rs, "pr", n, dry, 0), bounded_series(rs, "pr", n, dry_h, 0.8), bounded_series(rs, "pr", nF, dry_f, 0.4)
+                    # data as recorded in practice, now and then: a fixed resolution (0.1 mm/day: all positive values share a floor),
+                    # one extreme wet day in cm_future (tens of times the mean wet-day amount)
+                    quantised = r.random() < (0.6 if name == "CDFt" else 0.25) or "over" in opt
+                    outlier = r.random() < 0.25 or (name == "ScaledDistributionMapping" and mode == "none")
+                    if quantised:
+                        q = 0.1 / 86400
+                        obs, hist, fut = (np.where(x > 0, np.maximum(np.round(x / q), 1) * q, 0.0) for x in (obs, hist, fut))
+                    if outlier:
+                        fut = fut.copy(); fut[r.randrange(nF)] = r.choice([60, 100, 200]) * float(fut[fut > 0].mean())
                     tO, tF = R.times(n, "1981-01-01"), R.times(nF, "2041-01-01")
                     smallest = min(x[x > 0].min() for x in (obs, hist, fut))      # before the call: the inputs as given
                     obs, hist, fut = obs.copy(), hist.copy(), fut.copy()
@@ -161,15 +182,15 @@ def search(res, tier, seed, deep=False):
                         elif opt.get("long"):
                             d = D.CDFt.from_variable("pr", running_window_mode=(mode == "days"))      # default year window 17 / 9
                         else:
-                            d = R.build(name, "pr", mode if mode == "none" else "days", r)
+                            d = R.build(name, "pr", mode if mode == "none" else "days", r, **opt.get("over", {}))
                         np.random.seed(4)
                         out = d.apply_location(obs, hist, fut, time_obs=tO, time_cm_hist=tO, time_cm_future=tF)
                     except Exception as e:
                         report("exception:%s" % name, dict(debiaser=name, opt=str(opt), window_mode=mode, dry=dry, seed=seed), repr(e)[:300], "precipitation debiasing raised on valid non-negative input"); continue
-                    inp = dict(debiaser=name, opt=str(opt), window_mode=mode, dry=dry, seed=seed, round=rnd)
-                    res.case(("pr", name, str(opt), mode))
+                    inp = dict(debiaser=name, opt=str(opt), window_mode=mode, dry=dry, seed=seed, round=rnd, quantised=quantised, outlier=outlier, wet_bias=wet_bias)
+                    res.case(("pr", name, str(opt), mode, quantised, outlier))
                     if np.any(np.isnan(out)) or np.any(out < 0):
-                        report("pr-negative-or-nan:%s%s" % (name, "-censored" if opt else ""), inp, dict(nan=int(np.isnan(out).sum()), min=float(np.nanmin(out))), "precipitation output negative or NaN for valid non-negative input")
+                        report("pr-negative-or-nan:%s%s" % (name, "-censored" if opt.get("censored") else ""), inp, dict(nan=int(np.isnan(out).sum()), min=float(np.nanmin(out))), "precipitation output negative or NaN for valid non-negative input")
                     if name == "QuantileDeltaMapping":
                         th = d.censoring_threshold
                         if np.any((out > 0) & (out < th)):
